@@ -82,7 +82,10 @@ def gen_cond(r, tok, child_keys):
             v = [r.between(0, 5) for _ in range(r.between(1, 3))] if nm == "in_" else r.between(0, 9)
             parts.append(Leaf("value", "length", nm, kwargs={"value": v}))
         elif c < 58:
-            parts.append(Leaf("value", None, "in_", kwargs={"value": [tok.s("v") if r.coin() else r.between(0, 9) for _ in range(r.between(1, 3))]}))
+            members = [tok.s("v") if r.coin() else r.between(0, 9) for _ in range(r.between(1, 3))]
+            if r.pct() < 20:
+                members = [[0, 1], [1, 0], {"k": tok.s("v")}][: r.between(1, 3)]  # list / mapping valued members
+            parts.append(Leaf("value", None, "in_", kwargs={"value": members}))
         elif c < 79:
             ks = [k for k in child_keys if r.coin(70)] + [tok.s("k") for _ in range(r.between(0, 2))]
             if ks:
@@ -119,7 +122,7 @@ def gen_case(r):
         for _ in range(nchild):
             c = r.pct()
             if c < 55:
-                k = Prim(tok.s("k") if r.coin(70) else r.choice(["a", "b", "name", "x y"]))
+                k = Prim(tok.s("k") if r.coin(60) else r.choice(["a", "b", "name", "x y", "0", "1", "2", "3"]))
             elif c < 72:
                 k = Prim(r.between(0, 3))
             elif c < 86:
